@@ -158,10 +158,11 @@ CHECKS = {
               'analysis) must equal the fault-free document outside the faulted label, and every diagnostic the fault-free run '
               'does not have must point into the faulted block. For declaration blocks every declaration index x token x '
               '{truncation, token deletion, stray token, unbalanced bracket, unterminated comment} is enumerated and all '
-              'declarations before the faulted one must be present and unchanged.'),
+              'declarations before the faulted one must be present and unchanged. Fifteen hand-built models whose quantifier binder and '
+              'select binder names are also globals used by later labels expose scopes that a faulted label leaves open.'),
         design_ref='DESIGN.md 4/C16',
-        note=('XML input. One recorded finding (a failed exponentialrate label replaces the invariant of the same location) is '
-              'excluded by exact descriptor and counted; one cascading warning was repaired in /repo (fix: commit 8ba02a2).'),
+        note=('XML input. Three defects found by this check were repaired in /repo (cascading warning on an untyped guard; a failed '
+              'rate label replacing the invariant; a syntax error in a quantifier body leaving scopes open); their minimal cases are replayed first.'),
     ),
     'C09': dict(
         engine='oracle-server + Hypothesis model generator with fault families + token-level rewriters + the repository models (harness/py/prop_C09.py)',
